@@ -425,6 +425,7 @@ fn replay_lang(v: &Value) -> Result<Outcome, String> {
 
 pub fn def() -> PropertyDef {
     PropertyDef {
+        fuzz_targets: &[],
         id: "C18",
         level: "exploration",
         rule: "titles: any String (empty, multi-byte, long, arbitrary Unicode) on generated histories, with the 8 presence combinations of \
